@@ -19,7 +19,8 @@ EXTENDS NanoAffine
 CONSTANTS Vars,        \* place names
           MaxLen,      \* units per body
           MaxIter,     \* iteration bound of the dynamic semantics
-          Level        \* universe of compound units: 0 small (one place inside them), 1 medium, 2 large
+          Level,       \* universe of compound units: 0 small (one place inside them), 1 medium, 2 large
+          Pre          \* 0: bodies start empty or with a resource parameter; 1: with one or two declared places
 VARIABLES body, len
 vars == <<body, len>>
 
@@ -55,11 +56,35 @@ Compound ==
         \cup {<<CBlk(b)>> : b \in Seq2(BlkAt2)}
 Units == Atoms \cup Compound
 
-Init == len = 0 /\ body \in {<<>>, <<CNew(X1, FALSE)>>}        \* without / with a resource parameter
-Next == len < MaxLen /\ len' = len + 1 /\ \E u \in Units : body' = body \o u
+X2 == CHOOSE x \in Vars : x # X1
+Preambles == IF Pre = 1
+             THEN {<<CNew(X1, TRUE)>>, <<CNew(X1, TRUE), CNew(X2, TRUE)>>, <<CNew(X1, FALSE)>>, <<CNew(X1, FALSE), CNew(X2, TRUE)>>}
+             ELSE {<<>>, <<CNew(X1, FALSE)>>}                        \* without / with a resource parameter
+\* Level 2 (large compound units): one compound unit, then atoms
+Init == len = 0 /\ body \in Preambles
+Next == len < MaxLen /\ len' = len + 1 /\ \E u \in (IF Level = 2 /\ len > 0 THEN Atoms ELSE Units) : body' = body \o u
 Spec == Init /\ [][Next]_vars
 
 SoundInv == Sound(body, MaxIter)
 ExactInv == Exact(body, MaxIter)
-\* sanity of the generator: the space contains accepted and rejected bodies of every rule (checked by the harness through coverage records)
+\* ---- the documents' own examples as bodies: what the rules must say about them (evaluated when TLC starts)
+Nf == CNew("f", TRUE)   Ng == CNew("g", TRUE)   Uf == CUse("f")   Kf == CCon("f")   Kg == CCon("g")   Mf == CMvo("f")
+ASSUME StaticRules(<<Nf, Uf, Uf, Kf>>) = {}                                              \* Guide step 3, Pattern 1
+ASSUME StaticRules(<<Nf, Kf, Uf>>) = {"use_after_consume"}                                \* Guide Error 1
+ASSUME StaticRules(<<Nf, Kf, Kf>>) = {"double_consume"}                                   \* Guide Error 2, Design Rule 1 bad2
+ASSUME StaticRules(<<Nf, Uf, CRet>>) = {"leak"}                                           \* Guide Error 3, Design Rule 1 bad1
+ASSUME StaticRules(<<Nf, CAlt(<<<<Kf>>, <<>>>>), CRet>>) = {"leak"}                       \* Guide Error 4 (conditional leak)
+ASSUME StaticRules(<<Nf, CAlt(<<<<Uf>>, <<>>>>), Kf>>) = {}                               \* Guide Pattern 3
+ASSUME StaticRules(<<Nf, CAlt(<<<<Kf, CRet>>, <<>>>>), Uf, Kf, CRet>>) = {}               \* Guide Pattern 4 (early return)
+ASSUME StaticRules(<<Nf, CAlt(<<<<Uf, Kf, CRet>>, <<Kf, CRet>>>>)>>) = {}                 \* Guide `Close in All Branches`
+ASSUME StaticRules(<<Nf, CLoop(<<>>, <<Uf>>), Kf>>) = {}                                  \* Guide Pattern 6 (loop that borrows)
+ASSUME StaticRules(<<Nf, Mf, CNew("c.socket", TRUE), CUse("c.socket"), CCon("c.socket")>>) = {}   \* Guide Pattern 7, Design Rule 4
+ASSUME StaticRules(<<Nf, Mf, Ng, Kg>>) = {}                                               \* Design Rule 3 good
+ASSUME StaticRules(<<Nf, Mf, Ng, Kg, Kf>>) = {"use_after_move"}                           \* Design Rule 3: `(close f1) ERROR: f1 was moved`
+ASSUME StaticRules(<<Nf, Mf, Ng, Kf>>) = {"use_after_move", "leak"}                       \* Design Rule 2 / Guide `let f2 = f1`
+ASSUME StaticRules(<<Nf, Uf, Mf, CRet>>) = {}                                             \* Guide FAQ: a resource may be returned
+ASSUME StaticRules(<<Nf, CLoop(<<>>, <<Kf>>), CRet>>) = {"consume_in_loop", "leak"}       \* consumed again by the next iteration
+ASSUME StaticRules(<<CNew("f", FALSE), Uf>>) = {}                                         \* Design `fn close(f: FileHandle)`: the final consumer drops f
+ASSUME StaticRules(<<CNew("f", FALSE), Kf, Kf>>) = {"double_consume"}
+ASSUME DynErrs(<<Nf, Kf, Uf>>, 2) = {Er("use_dead", "f")} /\ DynErrs(<<Nf, CLoop(<<>>, <<Kf>>), CRet>>, 2) = {Er("consume_dead", "f"), Er("leak", "f")}
 ====
